@@ -276,7 +276,14 @@ impl LibCase {
 
 /// the library space: `deep` adds second link blocks and more owner/others variety
 pub fn enumerate(deep: bool, exts: &[&str], emit: &mut dyn FnMut(&LibCase)) {
-    let owners: Vec<&str> = if deep { vec!["1", "d/3", "2"] } else { vec!["1", "d/3"] };
+    enumerate_level(if deep { 1 } else { 0 }, exts, emit)
+}
+
+/// level 0 = shallow, 1 = deep (the quick tiers), 2 = deeper: every note as owner, two link blocks
+/// over all placements x all kinds x {reg, wiki}
+pub fn enumerate_level(level: u8, exts: &[&str], emit: &mut dyn FnMut(&LibCase)) {
+    let deep = level >= 1;
+    let owners: Vec<&str> = if level >= 2 { KEYS.to_vec() } else if deep { vec!["1", "d/3", "2"] } else { vec!["1", "d/3"] };
     for ext in exts {
         for owner in &owners {
             let urls = url_forms(owner);
@@ -304,11 +311,12 @@ pub fn enumerate(deep: bool, exts: &[&str], emit: &mut dyn FnMut(&LibCase)) {
                 }
             }
             // two link blocks over a reduced alphabet
-            let ps: Vec<&str> = if deep { vec!["block-ref", "inline-para", "item", "quote", "after-table", "heading"] } else { vec!["block-ref", "inline-para"] };
+            let ps: Vec<&str> = if level >= 2 { PLACEMENTS.to_vec() } else if deep { vec!["block-ref", "inline-para", "item", "quote", "after-table", "heading"] } else { vec!["block-ref", "inline-para"] };
             let ks: Vec<&str> = if deep { vec!["reg", "wiki"] } else { vec!["reg"] };
+            let ks1: Vec<&str> = if level >= 2 { KINDS.to_vec() } else { ks.clone() };
             for p1 in &ps {
                 for p2 in &ps {
-                    for k1 in &ks {
+                    for k1 in &ks1 {
                         for k2 in &ks {
                             for u1 in &urls {
                                 for u2 in &urls {
